@@ -269,8 +269,10 @@ def gen_int(ctx, cases, tags):
         # large n, small k (representable results with large factors)
         for _ in range(150 if quick else 3000):
             k = rng.randint(0, 6)
-            n = rng.choice([rng.randint(71, 3000), rng.randint(3000, 70000), lim // 2, lim - 1, lim])
-            n = min(n, lim)
+            # n <= lim/2: beyond that `2*k` leaves the type for k near n (signed: UB, unsigned: wraps and the loop runs
+            # ~2^(w-1) times) -- see the note on F-C17-2 in known_findings/C17.json; kept out of the batch because of its run time
+            n = rng.choice([rng.randint(71, 3000), rng.randint(3000, 70000), lim // 2 - 1, lim // 2, lim // 3])
+            n = min(n, lim // 2)
             kk = rng.choice([k, n - k])
             if kk >= 0 and not crashes_impl("binom", t, n, kk):
                 cases.append("binom %s %d %d" % (t, n, kk)); tags.append("binom/large-n")
@@ -360,18 +362,27 @@ def run_model(ctx, model, cases, impl_lines, tag="model"):
     return res
 
 
-def sig_of(case, model_obs):
+def sig_of(case, model_obs, impl_obs=None):
     t = case.split()
     op = t[0]
     if op in ("binom", "ipow", "fact"):
         name = {"binom": "binomial", "ipow": "power", "fact": "factorial"}[op]
-        return "C17:%s:%s" % (name, "intermediate-overflow" if model_obs == "UB" else "value")
+        return "C17:%s:%s" % (name, "intermediate-overflow" if model_obs == "UB" or model_obs == impl_obs else "value")
     if op == "cmp":
         return "C17:cmp:%s" % {"w": "relativeWeak", "s": "relativeStrong", "a": "absolute"}[t[2]]
     if op == "vcmp":
         return "C17:vcmp"
     if op in ("round", "trunc"):
-        return "C17:%s:%s" % (op, {"z": "towardZero", "i": "towardInf", "d": "downward", "u": "upward"}[t[4]])
+        f = FMTS[t[1]]
+        v = int(t[6], 16)
+        extra = ""
+        if f.isfin(v) and abs(f.frac(v)) >= 2 ** f.prec:
+            extra = ":ge2^prec"                 # int -> float conversion of lower+1 is no longer exact
+        elif t[2][0] == "u" and f.isfin(v) and f.frac(v) < 0:
+            extra = ":unsigned-negative"          # `lower--` wraps below 0
+        elif t[2][0] == "u" and f.isfin(v) and f.frac(v) >= (1 << ITYPES[t[2]][1]) - 1:
+            extra = ":unsigned-top"               # `lower+1` wraps above the maximum
+        return "C17:%s:%s%s" % (op, {"z": "towardZero", "i": "towardInf", "d": "downward", "u": "upward"}[t[4]], extra)
     return "C17:%s" % op
 
 
@@ -402,14 +413,17 @@ def build(ctx, san=True):
 def judge(ctx, cases, tags, io, mo, report=True):
     """Compare impl with model, apply the oracle.  Returns counters."""
     nviol = ndis = nub = 0
+    persig = {}
     for c, tg, a, (m, o) in zip(cases, tags, io, mo):
         if m.startswith("MODEL-ERROR") or m == "OUTOFFUEL" or m == "UNKNOWN-OP":
             ctx.violation("corr:C17/model-error", {"broken": "corr:C17/model", "case": c, "model": m, "impl": a}, found_input=False)
             continue
         if o.startswith("BAD"):
             nviol += 1
-            if nviol <= 300 and report:
-                ctx.violation(sig_of(c, m), {"case": c, "decoded": describe(c), "impl": a, "model": m, "oracle": o[4:],
+            sg = sig_of(c, m, a)
+            persig[sg] = persig.get(sg, 0) + 1
+            if persig[sg] <= 4 and report:
+                ctx.violation(sg, {"case": c, "decoded": describe(c), "impl": a, "model": m, "oracle": o[4:],
                                             "replay_cmd": "bin/check C17 --replay <this file>"})
             continue
         if m == "UB":
@@ -420,6 +434,7 @@ def judge(ctx, cases, tags, io, mo, report=True):
             if ndis <= 50 and report:
                 ctx.violation("corr:C17/%s" % c.split()[0], {"broken": "corr:C17/%s" % c.split()[0], "case": c, "decoded": describe(c),
                                                            "impl": a, "model": m, "oracle": "accepts impl output (%s)" % o}, found_input=False)
+    ctx.coverage["oracle_rejections_by_signature"] = persig
     return nviol, ndis, nub
 
 
@@ -442,7 +457,7 @@ def run(ctx):
         if j < len(so) and so[j] != io[i]:
             nsan += 1
             if nsan <= 20:
-                ctx.violation(sig_of(cases[i], mo[i][0]) + ":sanitizer",
+                ctx.violation(sig_of(cases[i], mo[i][0], io[i]) + ":sanitizer",
                               {"case": cases[i], "decoded": describe(cases[i]), "impl": io[i], "impl_sanitized_build": so[j], "model": mo[i][0],
                                "oracle": "the model calls this case defined, but the ASan/UBSan build aborts or answers differently"})
     dist = {}
@@ -454,14 +469,14 @@ def run(ctx):
         verdicts[k] = verdicts.get(k, 0) + 1
     eqtrue = sum(1 for c, (m, o) in zip(cases, mo) if c.startswith("cmp ") and m[:1] == "1")
     eqfalse = sum(1 for c, (m, o) in zip(cases, mo) if c.startswith("cmp ") and m[:1] == "0")
-    distinct = len(set(c for c, tg in zip(cases, tags) if not tg.startswith("cls") and not re.fullmatch(r"(\w+ )+(0+ ?)+", c)))
+    distinct = len(set(c for c, tg in zip(cases, tags) if not tg.startswith("cls") and any(re.search(r"[1-9a-f]", x) for x in c.split()[3:])))
     ctx.coverage.update({
         "evaluations": len(cases), "distinct_nontrivial": distinct,
         "rule": "cases = corpus + exhaustive integer scopes (binomial n<=70 all k, power |m|<=12 |p|<=70 (quick: p>=-12), factorial n<=70; int32/uint32/int64/uint64) "
                 "+ boundary bases for power + classifier pools with NaN/inf in every position + special x special float pairs "
                 "+ seeded boundary-directed float pairs (partner constructed at the tolerance boundary +- few ulps) for float and double, 3 styles "
                 "+ constructed round/trunc arguments (integer + {0, 1/2, +-eps, +-ulp, ...}) x 4 rounding styles x 3 compare styles x 4 integer types; "
-                "distinct = distinct case lines, non-trivial = not a classifier case and some operand non-zero",
+                "distinct = distinct case lines, non-trivial = not a classifier case and some operand after the first non-zero",
         "samples": [cases[i] for i in range(0, len(cases), max(1, len(cases) // 8))][:8],
         "op_distribution": dist, "oracle_verdicts": verdicts,
         "cmp_eq_true": eqtrue, "cmp_eq_false": eqfalse,
@@ -470,7 +485,11 @@ def run(ctx):
         "sanitizer_cases": len(idx), "sanitizer_disagreements": nsan, "exhaustive": False,
         "traces_validated_against_impl": len(cases) - nub,
     })
-    ctx.assumptions += ["x86-64 SSE2 arithmetic: each C++ floating operation is one IEEE round-to-nearest-even operation (no x87 excess precision, no FMA contraction)",
+    ctx.assumptions += ["library axioms of the Flocq/Reals-based theorems (C17_cmp_algebra, C17_veq_conjunction, C17_eq_absolute_real_partial), as printed by "
+                        "Print Assumptions: ClassicalDedekindReals.sig_not_dec, ClassicalDedekindReals.sig_forall_dec, "
+                        "FunctionalExtensionality.functional_extensionality_dep, Classical_Prop.classic; all other C17 theorems are closed under the global context",
+                        "round/trunc: no Coq theorem (statement kept in Properties_C17.v as a comment); tied by bit-exact differential check + exact dyadic oracle only",
+                        "x86-64 SSE2 arithmetic: each C++ floating operation is one IEEE round-to-nearest-even operation (no x87 excess precision, no FMA contraction)",
                         "operands are transported as bit patterns (memcpy), results of comparisons as booleans",
                         "long double (x87 80 bit) is not instantiated in the harness; covered by the format-generic theorems only",
                         "cases the model calls undefined behaviour (signed overflow, division by zero, out-of-range float->int cast) are judged by the oracle only"]
